@@ -639,6 +639,28 @@ def path_prefix_forms():
             yield f, f"path-prefix|{other_where}|{sel_where}"
 
 
+def container_target_forms():
+    """References whose target is a group or a repeat (count(${rep}), position(..), indexed-repeat arguments), written inside the target itself,
+    beside it, in a nested repeat of it and outside every repeat."""
+    spots = ["top", "in_r", "in_g", "in_r2", "in_h", "in_g2"]
+    for outer_repeat in (True, False):
+        for spot in spots:
+            for tgt in ("r", "g", "r2", "h", "g2"):
+                calc = Row("q", "calculate", "cref", {"calculation": "count(${%s}) + 1" % tgt, "relevant": "count(${%s}) > 0" % tgt})
+                lab = Row("q", "note", "nref", {"label": "n ${%s} end" % "leaf"})
+                leaf = Row("q", "integer", "leaf", {"label": "leaf"})
+                g2 = Row("group", "begin group", "g2", {"label": "g2"}, [Row("q", "text", "g2q", {"label": "q"})])
+                r2 = Row("repeat", "begin repeat", "r2", {"label": "r2"}, [Row("q", "text", "r2q", {"label": "q"}), g2])
+                g = Row("group", "begin group", "g", {"label": "g"}, [leaf, r2])
+                h = Row("group", "begin group", "h", {"label": "h"}, [Row("q", "text", "hq", {"label": "q"})])
+                r = Row("repeat" if outer_repeat else "group", "begin repeat" if outer_repeat else "begin group", "r", {"label": "r"}, [g, h])
+                f = Form()
+                f.survey = [r]
+                {"top": f.survey, "in_r": r.children, "in_g": g.children, "in_r2": r2.children, "in_h": h.children, "in_g2": g2.children}[spot].extend([calc, lab])
+                f.settings = {"form_id": "ct"}
+                yield f, f"container-target|{'rep' if outer_repeat else 'grp'}|{spot}|{tgt}"
+
+
 def negative_cases(ctx):
     n = 0
     styles = [("missing", 0)] + [("duplicate", k) for k in (2, 3, 4, 5)]
@@ -714,6 +736,10 @@ def run_shard(ctx):
         if ctx.mine(k):
             ctx.ctr("path_prefix_forms")
             check_form(ctx, form, "path-prefix", sig)
+    for k, (form, sig) in enumerate(container_target_forms()):
+        if ctx.mine(k):
+            ctx.ctr("container_target_forms")
+            check_form(ctx, form, "container-target", sig)
     for k, (form, sig) in enumerate(indexed_repeat_forms()):
         if ctx.mine(k):
             ctx.ctr("indexed_repeat_forms")
